@@ -77,15 +77,26 @@ def all_keys(n):
     return ks
 
 
-def build(b, keys, rng, extra_nodes=()):
-    obj = b.new(False)
+def build(b, keys, rng, extra_nodes=(), weighted=False):
+    """weighted: a weighted DirectedHypergraph whose stored weights differ from 1 (given explicitly, or accumulated
+    by inserting a hyperedge a second time); the statement counts hyperedges, so nothing expected changes"""
+    obj = b.new(weighted)
     keys = list(keys)
     rng.shuffle(keys)
     with quiet():
         for n in extra_nodes:
             obj.add_node(b.lab(n))
+        again = []
         for S, T in keys:
-            obj.add_edge((b._tuple(S), b._tuple(T)))
+            if weighted:
+                obj.add_edge((b._tuple(S), b._tuple(T)), weight=rng.choice([1, 2, 2, 3, 5]))
+                if rng.random() < 0.4:
+                    again.append((S, T))
+            else:
+                obj.add_edge((b._tuple(S), b._tuple(T)))
+        rng.shuffle(again)
+        for S, T in again:           # the same hyperedge once more: its weight accumulates, it stays ONE hyperedge
+            obj.add_edge((b._tuple(S), b._tuple(T)), weight=rng.choice([1, 1, 2]))
     return obj
 
 
@@ -105,10 +116,11 @@ def run(tier, seed):
     for i, mask in enumerate(masks):
         keys = [k3[j] for j in range(len(k3)) if mask >> j & 1]
         b = Binding("dir", LABEL_FAMILIES[fams[i % 4]](3), rng)
-        obj = build(b, keys, rng, extra_nodes=(3,) if i % 5 == 0 else ())
+        wtd = i % 3 == 1
+        obj = build(b, keys, rng, extra_nodes=(3,) if i % 5 == 0 else (), weighted=wtd)
         for c in observe(b, obj, 3, rng, [2, 3, 4]):
             cases.append(c)
-            descr.append({"n": 3, "keys": keys, "labels": b.labels, "mx": c["mx"]})
+            descr.append({"n": 3, "keys": keys, "labels": b.labels, "mx": c["mx"], "weighted": wtd})
     # (ii) random directed hypergraphs on 4-6 nodes, sizes 2..6, every bound 2..7
     for i in range(60 if tier == "quick" else 1500):
         n = rng.choice([4, 5, 6])
@@ -123,16 +135,17 @@ def run(tier, seed):
                 kk.append((T, S) if rng.random() < 0.5 else (T[:1], S[:1]))
         kk = list(dict.fromkeys(kk))
         b = Binding("dir", LABEL_FAMILIES[fams[i % 4]](n), rng)
-        obj = build(b, kk, rng)
+        wtd = i % 3 == 1
+        obj = build(b, kk, rng, weighted=wtd)
         for c in observe(b, obj, n, rng, rng.sample(range(2, 8), 3 if tier == "quick" else 6)):
             cases.append(c)
-            descr.append({"n": n, "keys": kk, "labels": b.labels, "mx": c["mx"]})
+            descr.append({"n": n, "keys": kk, "labels": b.labels, "mx": c["mx"], "weighted": wtd})
     v = K.run_cases("Trace_C12", cases, {"Kind": "dir"}, procs=12)
     for idx, failed in v["rejects"]:
         d = descr[idx]
         res.reject({"clauses": failed, "bound": d["mx"] if any("recipro" in f or "signature" in f for f in failed) else None},
-                   "directed measure(s) %s disagree with Directed.tla on %d-node hypergraph %s (bound %d, labels %s)"
-                   % (",".join(failed), d["n"], d["keys"], d["mx"], d["labels"]),
+                   "directed measure(s) %s disagree with Directed.tla on %d-node %shypergraph %s (bound %d, labels %s)"
+                   % (",".join(failed), d["n"], "weighted " if d["weighted"] else "", d["keys"], d["mx"], d["labels"]),
                    {"case": d, "logged": {k: v_ for k, v_ in cases[idx].items() if k != "st"}, "state": cases[idx]["st"]})
     inexact = sum(1 for c in cases if not c["float_exact"])
     for i, c in enumerate(cases):
@@ -142,9 +155,15 @@ def run(tier, seed):
             break
     res.cov(traces_validated_against_impl=len(cases), validator_states=v["states"],
             distinct_hypergraphs=len({(d["n"], tuple(d["keys"])) for d in descr}),
+            weighted_cases=sum(1 for d in descr if d["weighted"]),
+            weighted_cases_with_a_weight_other_than_1=sum(1 for c, d in zip(cases, descr) if d["weighted"]
+                                                          and any(e["w"] != 1 for e in c["st"]["edges"])),
+            weighted_cases_with_signature_returned=sum(1 for c, d in zip(cases, descr) if d["weighted"] and "sig" in c),
             exhaustive=(tier == "thorough"))
     res.sample({"hyperedges": descr[-1]["keys"], "labels": descr[-1]["labels"], "bound": descr[-1]["mx"],
                 "logged": {k: v_ for k, v_ in cases[-1].items() if k not in ("st", "deg", "seqs")}})
-    res.assume("ratios are compared as the nearest fraction with denominator <= 1000 of the returned float, which must reproduce the float bit-for-bit",
+    res.assume("every third input is a weighted DirectedHypergraph with weights 1..5, some accumulated by inserting a hyperedge twice; "
+               "signature, reciprocity and degrees count hyperedges, so the expected values ignore the weights",
+               "ratios are compared as the nearest fraction with denominator <= 1000 of the returned float, which must reproduce the float bit-for-bit",
                "thorough: all 4096 directed hypergraphs on 3 nodes; quick: a seeded sample of 250 of them; larger ones sampled")
     return res.finish()
